@@ -580,6 +580,12 @@ def build_unit(template, repo, variant='A'):
             c = {}
             keep = tuple(kw.get('derive', 'Clone,Copy').split(','))
             nt = normalise(raw, c, renames, keep_derive=keep)
+            if kw.get('pubfields') and kind == 'struct':
+                nt, k = re.subn(r'(?m)^(\s+)(?!pub\b)(\w+\s*:)', r'\1pub \2', nt)
+                c['N1_private_fields_made_pub'] = k
+                if not re.search(r'(?m)^\s*pub\s+struct\b', nt):
+                    nt = re.sub(r'(?m)^(\s*)struct\b', r'\1pub struct', nt, count=1)
+                    c['N1_private_item_made_pub'] = 1
             _merge(b.counts, c)
             b.items.append({'kind': kind, 'name': name, 'file': rel, 'sha256': hashlib.sha256(raw.encode()).hexdigest(),
                             'line': text.count('\n', 0, it.hstart) + 1})
